@@ -63,10 +63,11 @@ impl<T: 'static> OnUpdateHandler<T> {
             NodeUpdateDelayed::Invalidated => Previously::Invalidated,
             NodeUpdateDelayed::Unnecessary => Previously::Unnecessary,
         });
-        let value_any = node.value_as_any();
+        // The value is only looked at for updates that carry one: evaluating it can run user code
+        // (the projection of a map_ref node), which must not happen for an unnecessary node.
         let concrete_update = match node_update {
             NodeUpdateDelayed::Changed => {
-                let value_any = value_any.unwrap();
+                let value_any = node.value_as_any().unwrap();
                 let v = value_any
                     .as_any()
                     .downcast_ref::<T>()
@@ -74,7 +75,7 @@ impl<T: 'static> OnUpdateHandler<T> {
                 return (self.handler_fn)(NodeUpdate::Changed(&*v));
             }
             NodeUpdateDelayed::Necessary => {
-                let value_any = value_any.unwrap();
+                let value_any = node.value_as_any().unwrap();
                 let v = value_any
                     .as_any()
                     .downcast_ref::<T>()
